@@ -57,6 +57,16 @@ def gen_cases(ctx):
             vals = {"float": [1.5, 2.5, 2.5], "int": [1, 2, 2], "bool": [True, False, False], "date": [1, 2, 2]}[kind]
             warm.append({"op": "inproc", "helper": h, "kind": kind, "args": a, "vals": vals, "g": [0, 0, 1]})
     cases = warm + cases
+    # timedelta columns (fixed d3e1283: they took the Numba path, which cannot handle them: min/max lost the
+    # group's value next to a NaT, sum/mean/median raised): switching USE_NUMBA must not matter for them either
+    td_pool = [None, -5, 0, 1, 2, 86400, 3 * 86400]
+    for _ in range(40 if ctx.tier == "quick" else 800):
+        h = rng.choice(["min", "max", "first", "last", "nth", "count", "count_unique", "mode", "sum", "mean", "median", "any", "all"])
+        nrow = rng.choice([1, 2, 4, 6, 9])
+        cases.append({"op": "inproc", "helper": h, "kind": "timedelta", "args": C07.gen_args(rng, h),
+                      "vals": [rng.choice(td_pool) for _ in range(nrow)], "g": [rng.randint(0, 2) for _ in range(nrow)]})
+    cases.insert(0, {"op": "inproc", "helper": "min", "kind": "timedelta", "args": {}, "vals": [3 * 86400, None, 86400, 5, 7], "g": [0, 0, 0, 1, 1]})
+    cases.insert(0, {"op": "inproc", "helper": "mean", "kind": "timedelta", "args": {}, "vals": [3 * 86400, None, 86400, 5, 7], "g": [0, 0, 0, 1, 1]})
     cases.insert(0, {"op": "inproc", "helper": "mode", "kind": "float", "args": {"drop_na": False}, "vals": ["nan", "nan", 2.0, 5.5, 5.5], "g": [0, 0, 0, 1, 1]})
     cases.insert(1, {"op": "inproc", "helper": "median", "kind": "float", "args": {"drop_na": False}, "vals": ["nan", 0.25, 0.25, "nan", "nan", 1.0], "g": [0, 0, 0, 0, 0, 1]})
     # several helpers on the same column in ONE aggregate() call ("in the same call")
@@ -198,8 +208,8 @@ def impl(case):
 
 
 def model_requests(case, obs):
-    if case["op"] != "inproc":
-        return []
+    if case["op"] != "inproc" or case.get("kind") == "timedelta":
+        return []      # timedelta: Numba on = off is the whole claim (no kernel model: never accelerated)
     c = dict(case, op="group")
     reqs = C07.model_requests(c, obs)
     return [("agg_group_numba", reqs[0][1])]
